@@ -6,6 +6,7 @@
 package main
 
 import (
+	"regexp"
 	"runtime"
 	"encoding/json"
 	"flag"
@@ -312,12 +313,26 @@ func runCheck(prop, tier string, ovs []string, only string, writeBaseline, noRep
 			if tier == "thorough" {
 				n = 5000000
 			}
+			if fr.fc != nil && fr.fc.Bounded != "" {
+				if k, err := strconv.Atoi(fr.fc.Bounded); err == nil && k > 0 {
+					n = k
+					if tier == "thorough" {
+						n = 25 * k
+					}
+				}
+			}
 			confirmed, log := searchFunction(ctx, fr, prop, dir, n)
 			boundedRuns++
+			fr.searchInputs = n
+			if m := regexp.MustCompile(`bounded search: (\d+) inputs satisfied`).FindStringSubmatch(log); m != nil {
+				fr.searchTried, _ = strconv.Atoi(m[1])
+			}
+			fr.searchResult = "no-violation-found"
 			if !confirmed {
 				fr.searchNote = firstLineOf(log)
 				continue
 			}
+			fr.searchResult = "violation-found"
 			os.WriteFile(filepath.Join(dir, "replay.log"), []byte(log), 0o644)
 			os.WriteFile(filepath.Join(dir, "obligation.txt"), []byte(fmt.Sprintf("property: %s\nfunction: %s\nkind: bounded concrete search with the executable contract as oracle (stand-in, %d generated inputs)\nreason it ran: %s\n", prop, fr.fc.Func, n, fr.undecided)), 0o644)
 			violations++
@@ -737,6 +752,33 @@ func writeEvidence(prop, tier string, seed int, frs []*FuncResult, all []*OblRes
 		"distinct_nontrivial":   discharged,
 		"rule":                  "one evaluation = one verification condition generated from the current source of a function under contract; non-trivial = not syntactically true, sent to the solvers and answered unsat",
 	}
+	var bounded []map[string]any
+	boundedInputs, boundedTried := 0, 0
+	for _, fr := range frs {
+		if fr.searchInputs > 0 && fr.fc != nil {
+			bounded = append(bounded, map[string]any{"function": fr.fc.Func, "generated_inputs": fr.searchInputs, "inputs_satisfying_the_precondition": fr.searchTried, "result": fr.searchResult,
+				"why": "stand-in: " + firstNonEmpty(fr.undecided, "an obligation of this function was not discharged"), "bound": fmt.Sprintf("%d pseudo-random inputs from a fixed seed (values from tables of boundary cases plus small random ones; slices and strings of length <= 5)", fr.searchInputs)})
+			boundedInputs += fr.searchInputs
+			boundedTried += fr.searchTried
+		}
+	}
+	if len(bounded) > 0 {
+		cov["bounded_searches"] = bounded
+		cov["bounded_note"] = "BOUNDED stand-ins (the executable contract is the oracle of a random search on the real function): they can confirm a violation; finding none proves nothing and is not counted as discharged"
+	}
+	if level == "exploration" {
+		// a check that consists of bounded stand-ins only: the generic counters describe the search, not solver obligations
+		cov["evaluations"] = boundedInputs
+		cov["distinct_nontrivial"] = boundedTried
+		cov["rule"] = "one evaluation = one generated input of a ghost scenario executed on the real code and judged by its contract; counted as non-trivial when it satisfies the scenario's precondition (inputs are generated from distinct seeds of one fixed master seed; duplicates are possible and not removed)"
+		var ss []any
+		for _, b := range bounded {
+			ss = append(ss, b)
+		}
+		if len(ss) > 0 {
+			cov["samples"] = ss
+		}
+	}
 	if problem != "" {
 		cov["problem"] = problem
 	}
@@ -765,4 +807,13 @@ func effectClauseKey(name string) string {
 		return name
 	}
 	return name[:i] + ":*"
+}
+
+func firstNonEmpty(xs ...string) string {
+	for _, x := range xs {
+		if x != "" {
+			return x
+		}
+	}
+	return ""
 }
